@@ -33,6 +33,9 @@
 #include <givaro/montgomery.h>
 #include <givaro/gfq.h>
 #include <givaro/givpoly1.h>
+#include <givaro/zring.h>
+#include <givaro/gf2.h>
+#include <givaro/extension.h>
 #include <recint/recint.h>
 
 using Givaro::Integer;
@@ -87,6 +90,7 @@ static Integer argZ(const Args& a, size_t i) {
     return r;
 }
 static std::string hx(const Integer& z) { return vp::hex(z.get_mpz_const()); }
+static std::string hx(bool v) { return v ? "1" : "0"; }
 static std::string hx(int8_t v) { return vp::hex_ll(v); }
 static std::string hx(int16_t v) { return vp::hex_ll(v); }
 static std::string hx(int32_t v) { return vp::hex_ll(v); }
@@ -347,7 +351,7 @@ static void ring_fn(const Args& a, const Ring& F) {
     bool ran = true;
     for (int rep = 0; rep < 2; ++rep) {
         std::vector<E>& v = s[rep];
-        auto fresh = [&](E& e) { if (rep == 0) set_junk(e); else F.init(e); };
+        auto fresh = [&](E& e) { if (rep == 0) set_junk(e); else { e = E(); F.init(e); } };
         size_t half = rep ? n / 2 : n;                  // rep 1 switches to a copy after `half` draws
         if (fn == 0) {
             typename Ring::RandIter it(F, seed);
@@ -403,8 +407,8 @@ static void ring_fn(const Args& a, const Ring& F) {
     int eq = 1;
     for (size_t i = 0; i < n; ++i) if (!(s[0][i] == s[1][i])) eq = 0;
     std::string r = eq ? "1" : "0";
-    for (size_t i = 0; i < n; ++i) r += " " + hx(s[0][i]);
-    if (!eq) { r += " U"; for (size_t i = 0; i < n; ++i) r += " " + hx(s[1][i]); }
+    for (size_t i = 0; i < n; ++i) r += " " + hx((E)s[0][i]);
+    if (!eq) { r += " U"; for (size_t i = 0; i < n; ++i) r += " " + hx((E)s[1][i]); }
     out(a, r);
 }
 
@@ -438,6 +442,17 @@ static void c_ring(const Args& a) {
         case 0x14: ring_w<ModularBalanced<float>, C_GEN>(a); break;
         case 0x15: ring_w<ModularBalanced<double>, C_GEN>(a); break;
         case 0x16: ring_w<Montgomery<int32_t>, 0>(a); break;
+        case 0x17: ring_w<ModularExtended<double>, 0>(a); break;
+        case 0x30: { GF2 F; ring_fn<GF2, C_SIZE>(a, F); break; }
+        case 0x31: { ZRing<int8_t> F; ring_fn<UnparametricZRing<int8_t>, C_GEN>(a, F); break; }
+        case 0x32: { ZRing<uint8_t> F; ring_fn<UnparametricZRing<uint8_t>, C_GEN>(a, F); break; }
+        case 0x33: { ZRing<int16_t> F; ring_fn<UnparametricZRing<int16_t>, C_GEN>(a, F); break; }
+        case 0x34: { ZRing<uint16_t> F; ring_fn<UnparametricZRing<uint16_t>, C_GEN>(a, F); break; }
+        case 0x35: { ZRing<int32_t> F; ring_fn<UnparametricZRing<int32_t>, C_GEN>(a, F); break; }
+        case 0x36: { ZRing<uint32_t> F; ring_fn<UnparametricZRing<uint32_t>, C_GEN>(a, F); break; }
+        case 0x37: { ZRing<int64_t> F; ring_fn<UnparametricZRing<int64_t>, C_GEN>(a, F); break; }
+        case 0x38: { ZRing<uint64_t> F; ring_fn<UnparametricZRing<uint64_t>, C_GEN>(a, F); break; }
+        case 0x39: { ZRing<double> F; ring_fn<UnparametricZRing<double>, C_GEN>(a, F); break; }
         case 0x18: { Modular<Integer> F(argZ(a, 1)); ring_fn<Modular<Integer>, 0>(a, F); break; }
         case 0x1a: { Modular<RU7, RU8> F(toRu<7>(argZ(a, 1))); ring_fn<Modular<RU7, RU8>, 0>(a, F); break; }
         case 0x1b: { Montgomery<RU7> F(toRu<7>(argZ(a, 1))); ring_fn<Montgomery<RU7>, 0>(a, F); break; }
@@ -490,6 +505,48 @@ static void c_poly(const Args& a) {
     if (T == 0x5) { Givaro::Modular<int32_t> F((uint32_t)a.W(1)); poly_run(a, F); }
     else if (T == 0x20) { Givaro::GFqDom<int32_t> F((uint32_t)a.W(1), (uint32_t)a.W(2)); poly_run(a, F); }
     else out(a, "BADTYPE");
+}
+
+// ------------------------------------------------------------------------------------------
+// D2. Extension<Modular<int32_t>> (extension.h): elements are polynomials over the base field
+// ------------------------------------------------------------------------------------------
+// ext p e seed kind arg = size c0 … U size c0 … U size c0 …
+//   kind 0 random(g, r)   1 random(g, r, int64_t s = arg)   2 random(g, r, b) with b of size arg   3..5 the same through nonzerorandom
+//        6 Extension::RandIter(F, size = arg, seed): the second element drawn (the iterator of rep 2 is a copy taken after the first draw)
+//   three draws from the same seed into destinations that held (0) a longer polynomial of ones, (1) nothing, (2) a shorter non-canonical one
+static void c_ext(const Args& a) {
+    typedef Givaro::Modular<int32_t> BF;
+    typedef Givaro::Extension<BF> EF;
+    BF F((uint32_t)a.W(0));
+    uint32_t e = (uint32_t)a.W(1);
+    EF E(F, e);
+    uint64_t seed = a.W(2); int kind = (int)a.W(3); long arg = (long)a.SW(4);
+    std::string r;
+    for (int rep = 0; rep < 3; ++rep) {
+        Givaro::GivRandom g(seed);
+        EF::Element P, B;
+        if (rep == 0) P.assign((size_t)e + 9, F.one);
+        else if (rep == 2) { P.resize(1); set_junk(P[0]); }
+        switch (kind) {
+            case 0: E.random(g, P); break;
+            case 1: E.random(g, P, (int64_t)arg); break;
+            case 2: B.resize((size_t)arg); E.random(g, P, B); break;
+            case 3: E.nonzerorandom(g, P); break;
+            case 4: E.nonzerorandom(g, P, (int64_t)arg); break;
+            case 5: B.resize((size_t)arg); E.nonzerorandom(g, P, B); break;
+            case 6: {
+                EF::RandIter it(E, Integer((long)arg), Integer(seed));
+                EF::Element Q; it.random(Q);
+                if (rep == 2) { EF::RandIter c(it); c.random(P); } else it(P);
+                break;
+            }
+            default: out(a, "BADKIND"); return;
+        }
+        if (rep) r += " U ";
+        r += vp::hex_ull(P.size());
+        for (size_t i = 0; i < P.size(); ++i) r += " " + hx(P[i]);
+    }
+    out(a, r);
 }
 
 // ------------------------------------------------------------------------------------------
@@ -601,6 +658,7 @@ static void run_case(const Args& a) {
     else if (k == "seedrep") c_seedrep(a);
     else if (k == "ring") c_ring(a);
     else if (k == "poly") c_poly(a);
+    else if (k == "ext") c_ext(a);
     else if (k == "ru") c_ru(a);
     else if (k == "rurep") c_rurep(a);
     else if (k == "rm") c_rm(a);
@@ -852,6 +910,21 @@ struct Gen {
         ring_cases<ModularBalanced<float>>(0x14, C_GEN);
         ring_cases<ModularBalanced<double>>(0x15, C_GEN);
         ring_cases<Montgomery<int32_t>>(0x16, 0, true);
+        ring_cases<ModularExtended<double>>(0x17, 0);
+        {   // GF2 and the ZRing family (no modulus)
+            size_t nz = thorough ? 200 : 40;
+            for (int fn : {0, 1, 3, 4, 5, 6, 7}) for (int rpt = 0; rpt < (thorough ? 8 : 3); ++rpt)
+                add("ring 30 2 1 " + H(gseed(fn != 3)) + " " + H(fn) + " " + H(rpt) + " " + H(nz));
+            for (unsigned T = 0x31; T <= 0x39; ++T) {
+                for (int fn : {0, 3, 4, 5}) for (int rpt = 0; rpt < (thorough ? 6 : 2); ++rpt)
+                    add("ring " + H(T) + " 0 1 " + H(gseed(fn == 0 || fn == 4)) + " " + H(fn) + " 0 " + H(nz));
+                for (uint64_t sz : {(uint64_t)0, (uint64_t)1, (uint64_t)2, (uint64_t)3, (uint64_t)100, (uint64_t)127})
+                    add("ring " + H(T) + " 0 1 " + H(gseed()) + " 2 " + H(sz) + " " + H(nz));
+                if (T >= 0x33) for (uint64_t sz : {(uint64_t)255, (uint64_t)256, (uint64_t)32767}) add("ring " + H(T) + " 0 1 " + H(gseed()) + " 2 " + H(sz) + " " + H(nz));
+                if (T >= 0x35) for (uint64_t sz : {(uint64_t)65536, (uint64_t)2147483646ULL, (uint64_t)2147483647ULL}) add("ring " + H(T) + " 0 1 " + H(gseed()) + " 2 " + H(sz) + " " + H(nz));
+                if (T >= 0x37 && T != 0x39) for (uint64_t sz : {(uint64_t)2147483648ULL, (uint64_t)1 << 40, (uint64_t)0x7fffffffffffffffULL}) add("ring " + H(T) + " 0 1 " + H(gseed()) + " 2 " + H(sz) + " " + H(nz));
+            }
+        }
         // big moduli
         std::vector<Integer> big = {Integer(2), Integer(3), Integer(101), pow2(64) - 59, pow2(64) + 13, pow2(127) - 1};
         for (size_t i = 0; i < (thorough ? 8u : 1u); ++i) big.push_back(bigrand(2 + (unsigned)rng.below(126)) | Integer(1));
@@ -907,6 +980,22 @@ struct Gen {
         }
         for (auto& e : pk) for (int kind : {2, 6}) add("poly 20 " + H(e.first) + " " + H(e.second) + " " + H(gseed()) + " " + H(kind) + " 0");
     }
+    void gen_ext() {
+        std::vector<uint64_t> ps = {2, 3, 5, 101, 32749, 46337};
+        std::vector<uint64_t> es = {1, 2, 3, 5, 8};
+        if (thorough) { es.push_back(13); es.push_back(24); }
+        for (uint64_t p : ps) for (uint64_t e : es) {
+            std::string hd = "ext " + H(p) + " " + H(e) + " ";
+            for (int kind : {0, 3}) add(hd + H(gseed(p == 2)) + " " + H(kind) + " 0");
+            for (int kind : {1, 4}) for (long s : {0L, 1L, 2L, (long)e - 1, (long)e, (long)e + 1, 1000L, -1L, -7L, (long)0x7fffffffffffffffL, (long)rng.below(e + 2)}) {
+                if (kind == 4 && s <= 0) continue;             // a non-zero element of size 0 does not exist
+                if (kind == 4 && e == 1 && s >= 1) continue;   // Extension::random(g, r, s >= e) asks for size e - 1 = 0
+                add(hd + H(gseed(p == 2)) + " " + H(kind) + " " + vp::hex_ll(s));
+            }
+            for (int kind : {2, 5}) for (uint64_t s = (kind == 5 ? 1 : 0); s <= e; ++s) add(hd + H(gseed(p == 2)) + " " + H(kind) + " " + H(s));
+            for (uint64_t sz : {(uint64_t)0, (uint64_t)1, (uint64_t)2, p - 1, p, p + 1, (uint64_t)1000003}) add(hd + H(gseed()) + " 6 " + H(sz));
+        }
+    }
     void gen_recint() {
         size_t n = thorough ? 200 : 24;
         for (unsigned K : {6u, 7u, 8u, 9u, 10u}) for (uint64_t s : {(uint64_t)0, (uint64_t)1, (uint64_t)5489, (uint64_t)rng.next(), (uint64_t)~0ULL}) {
@@ -922,7 +1011,7 @@ struct Gen {
             for (const Integer& p : ps) add("rm " + H(K) + " " + H(mg) + " " + HZ(p) + " " + H(rng.next()) + " " + H(n));
         }
     }
-    void all() { gen_giv(); gen_int(); gen_ring(); gen_poly(); gen_recint(); }
+    void all() { gen_giv(); gen_int(); gen_ring(); gen_poly(); gen_ext(); gen_recint(); }
 };
 
 int main(int argc, char** argv) {
